@@ -149,6 +149,23 @@ theorem cconvN3 (ι : ℚ →+* R) (N0 N1 N2 : Nat) (A B : List Nat → Rat) (p0
   unfold cconvN sum3
   simp only [sumBox, subIdx, map_sumTo, map_mul]
 
+/-- a materialised array reads like the original on the cells of its shape -/
+theorem force_get_inRange {α} (a : NDA α) (d : α) (idx : List Nat) (h : inRange a.shape idx = true) :
+    (a.force d).get idx = a.get idx := by
+  have hlt := flatC_lt a.shape idx h
+  have hpos := inRange_pos a.shape idx h
+  show (NDA.ofList a.shape a.toList d).get idx = a.get idx
+  unfold NDA.ofList NDA.ofArray NDA.toList indicesC
+  simp only
+  rw [Array.getD_eq_getD_getElem?]
+  simp only [List.getElem?_toArray, List.getElem?_map]
+  rw [List.getElem?_range hlt]
+  simp [unflatC_flatC a.shape idx h]
+
+theorem compA_force (a : NDA (List R)) (c : Nat) (idx : List Nat) (h : inRange a.shape idx = true) :
+    compA (a.force []) c idx = compA a c idx := by
+  unfold compA; rw [force_get_inRange a [] idx h]
+
 theorem compA_mk (sh : List Nat) (F : List Nat → List R) (a : Nat) (i : List Nat) :
     compA (⟨sh, F⟩ : NDA (List R)) a i = (F i).getD a 0 := rfl
 
@@ -164,7 +181,7 @@ theorem demagFFTArr_gen (ρs : List (Root R)) (Tq Mq : NDA (List R)) (sh : List 
     rcases (by omega : a = 0 ∨ a = 1 ∨ a = 2) with rfl | rfl | rfl <;> simp
   unfold demagFFTArr
   rw [ifftnArr_get _ _ _ _ _ ha]
-  have hsh : (fftnArr ρs 6 Tq).shape = sh := hT
+  have hsh : ((specProd (fftnArr ρs 6 Tq) ((fftnArr ρs 3 Mq).force [])).force []).shape = sh := hT
   simp only [hsh]
   rw [idftN_congr ρs sh _ (fun k =>
       1 * (1 * (dftN ρs sh (compA Tq (symIdx a 0)) k * dftN ρs sh (compA Mq 0) k)
@@ -177,7 +194,13 @@ theorem demagFFTArr_gen (ρs : List (Root R)) (Tq Mq : NDA (List R)) (sh : List 
       have e2 : ∀ b, b < 3 → compA (fftnArr ρs 3 Mq) b (ishift sh k) = dftN ρs sh (compA Mq b) k := by
         intro b hb
         rw [fftnArr_get ρs 3 Mq (ishift sh k) b hb, hM, fshift_ishift sh k hk]
-      rw [compA_mk, getD_tab _ _ _ _ ha, e1 _ hs6.1, e1 _ hs6.2.1, e1 _ hs6.2.2, e2 0 (by omega), e2 1 (by omega), e2 2 (by omega)]
+      have hik := ishift_inRange sh k hk
+      rw [compA_force _ _ _ (by show inRange (fftnArr ρs 6 Tq).shape _ = true; rw [show (fftnArr ρs 6 Tq).shape = sh from hT]; exact hik)]
+      unfold specProd
+      rw [compA_mk, getD_tab _ _ _ _ ha,
+        compA_force _ 0 _ (by show inRange Mq.shape _ = true; rw [hM]; exact hik),
+        compA_force _ 1 _ (by show inRange Mq.shape _ = true; rw [hM]; exact hik),
+        compA_force _ 2 _ (by show inRange Mq.shape _ = true; rw [hM]; exact hik), e1 _ hs6.1, e1 _ hs6.2.1, e1 _ hs6.2.2, e2 0 (by omega), e2 1 (by omega), e2 2 (by omega)]
       ring)]
   rw [C11.ifft_linear, C11.ifft_linear, idftN_mul_dftN ρs sh hρ _ _ p hp, idftN_mul_dftN ρs sh hρ _ _ p hp,
     idftN_mul_dftN ρs sh hρ _ _ p hp]
